@@ -140,7 +140,7 @@ def _internal_name(g) -> bool:
     return False
 
 
-def eligible(g, vocab: Set[str], force: Set[str] = frozenset()) -> bool:
+def eligible(g, vocab: Set[str], force: Set[str] = frozenset(), allow_try: bool = False) -> bool:
     fn = g.node
     nm = fn.name
     if (not _internal_name(g) or nm in vocab) and nm not in force:
@@ -152,7 +152,9 @@ def eligible(g, vocab: Set[str], force: Set[str] = frozenset()) -> bool:
             return False
     for n in _own(fn):
         if isinstance(n, (ast.Yield, ast.YieldFrom, ast.Await, ast.Global, ast.Nonlocal, ast.FunctionDef, ast.AsyncFunctionDef, ast.ClassDef,
-                          ast.Lambda, ast.Try, ast.NamedExpr)):
+                          ast.Lambda, ast.NamedExpr)):
+            return False
+        if isinstance(n, ast.Try) and not allow_try:
             return False
         if isinstance(n, ast.Call) and isinstance(n.func, ast.Name) and n.func.id in (nm, "locals", "vars", "globals", "super", "eval", "exec"):
             return False
@@ -326,7 +328,7 @@ class Inliner:
         self.edges: Set[Tuple[str, str]] = set()
 
     # -- resolution ------------------------------------------------------------------------------------------------------------
-    def resolve(self, fi, call: ast.Call):
+    def resolve(self, fi, call: ast.Call, allow_try: bool = False):
         """-> (helper FunctionInfo, implicit self expr | None) or None"""
         f = call.func
         g = None
@@ -355,7 +357,7 @@ class Inliner:
                     g = r
                     if g.cls is not None and not any(isinstance(d, ast.Name) and d.id == "staticmethod" for d in g.node.decorator_list):
                         return None
-        if g is None or g.qualname == fi.qualname or not eligible(g, self.vocab, self.force):
+        if g is None or g.qualname == fi.qualname or not eligible(g, self.vocab, self.force, allow_try=allow_try):
             return None
         return g, implicit
 
@@ -441,6 +443,14 @@ class Inliner:
         if call is None:
             return None
         r = self.resolve(fi, call)
+        if r is None and kind == "return":
+            # tail position: `return helper(...)` may be replaced by the helper's body as it stands (its returns become the caller's), whatever
+            # control flow it contains (try/except, loops) -- no return elimination is needed
+            rt = self.resolve(fi, call, allow_try=True)
+            if rt is not None:
+                tail = self._inline_tail(fi, st, call, rt[0], rt[1], caller_names)
+                if tail is not None:
+                    return tail
         if r is None:
             return None
         g, implicit = r
@@ -575,6 +585,47 @@ class Inliner:
             for x in ast.walk(s_):
                 ast.copy_location(x, st)
         self.log.append(f"{fi.short}: inlined helper {g.short}")
+        self.edges.add((fi.qualname, g.qualname))
+        return out
+
+    def _inline_tail(self, fi, st, call, g, implicit, caller_names) -> Optional[List[ast.stmt]]:
+        k = next(_counter)
+        pre = f"_il{k}_"
+        try:
+            bind = _bind(g.node, call, implicit)
+            body = clone(_body_wo_doc(g.node))
+            stored, _ = _stored_names(g.node)
+            pnames = [a.arg for a in _params(g.node)]
+            expr_map: Dict[str, ast.expr] = {}
+            rename: Dict[str, str] = {}
+            prologue: List[ast.stmt] = []
+            for pnm in pnames:
+                arg = bind[pnm]
+                if pnm not in stored and _is_simple(arg) and not (_names_read(arg) & stored):
+                    expr_map[pnm] = arg
+                elif isinstance(arg, ast.Name) and arg.id == pnm:
+                    rename[pnm] = pnm   # the caller's local of the same name is dead after a tail call
+                else:
+                    rename[pnm] = pre + pnm
+                    prologue.append(ast.Assign(targets=[ast.Name(id=pre + pnm, ctx=ast.Store())], value=clone(arg), type_comment=None))
+            if len([p_ for p_ in pnames if p_ not in expr_map and not _is_pure(bind[p_])]) > 1:
+                raise NotInlinable("several impure arguments")
+            for nm in stored:
+                if nm not in rename and nm not in expr_map:
+                    rename[nm] = (pre + nm) if nm in caller_names else nm
+            self._import_globals(g, fi, body, set(pnames) | stored)
+            body = [_Subst(expr_map, rename).visit(b_) for b_ in body]
+        except NotInlinable as e:
+            self.log.append(f"{fi.short}: tail call to {g.short} left as is ({e})")
+            return None
+        out = prologue + body
+        last = out[-1] if out else None
+        if not isinstance(last, (ast.Return, ast.Raise)):
+            out.append(ast.Return(value=ast.Constant(None)))
+        for s_ in out:
+            for x in ast.walk(s_):
+                ast.copy_location(x, st)
+        self.log.append(f"{fi.short}: inlined helper {g.short} (tail call)")
         self.edges.add((fi.qualname, g.qualname))
         return out
 
